@@ -3,6 +3,9 @@ HOOK_COMMITS = ['fba6b35']
 T = 'Coq proof over Gallina model + differential correspondence + oracle'
 Q = 'theorems on exact rationals, execution on binary32'
 CLAIMED = {
+    'C02': (T, 'well-formedness proved at the lexical level of the model reader; expat is the independent oracle', None),
+    'C03': (T, 'reader represented by the model read_xml, tied by byte-level correspondence; custom DTD entities outside the model', None),
+    'C05': (T, 'idempotence of blank-line trimming, escaping and read-back proved; attribute re-sort / class re-split identities covered by correspondence only (partial)', None),
     'C09': (T, Q, None),
     'C11': (T, Q, None),
     'C12': (T, Q, None),
